@@ -565,7 +565,8 @@ class C09(Prop):
             txt = self.AEC._get_launch(None, task, inst, 'EXEC')
         except Exception as e:
             return can, {'err': errkind(e)}
-        m = re.fullmatch(r'\( \\\n((?:  .* \\\n)*)\) 1> out \\\n  2> err\nRP_RET=\$\?\nRP_LAUNCH_PID=\$\$\n', txt)
+        # the stdout/stderr names are shell-quoted by _get_launch (ru.sh_quote); C10 owns that part
+        m = re.fullmatch(r'\( \\\n((?:  .* \\\n)*)\) 1> "?out"? \\\n  2> "?err"?\nRP_RET=\$\?\nRP_LAUNCH_PID=\$\$\n', txt)
         if not m:
             raise ValueError('launch fragment not understood: %r' % txt)
         cmds = [l[2:-2] for l in m.group(1).split('\n') if l]
